@@ -1,0 +1,5 @@
+//go:build verif
+
+package podeni
+
+func VerifPodNumaHints(anno map[string]string) []int { return podNumaHints(anno) }
